@@ -50,10 +50,13 @@ DeclFam ==
        [type |-> "monetary", name |-> "m", origin |-> Call("balance", <<Var("x"), Ast>>), val |-> [t |-> "none"]] >>,
     << [type |-> "monetary", name |-> "m", origin |-> Call("balance", <<Acc("a"), Ast>>), val |-> [t |-> "none"]],
        [type |-> "monetary", name |-> "n", origin |-> Call("balance", <<Acc("b"), Ast>>), val |-> [t |-> "none"]] >>,
-    << [type |-> "account", name |-> "x", origin |-> NoOrigin, val |-> VAcct("b")] >> }
+    << [type |-> "account", name |-> "x", origin |-> NoOrigin, val |-> VAcct("b")] >>,
+    << [type |-> "monetary", name |-> "m", origin |-> Call("balance", <<Acc(WORLD), Ast>>), val |-> [t |-> "none"]] >>,
+    << [type |-> "account", name |-> "x", origin |-> NoOrigin, val |-> VAcct(WORLD)] >> }
 HasVar(ds, nm) == \E i \in 1..Len(ds) : ds[i].name = nm
 LeafFam(ds) == {[k |-> "acct", e |-> Acc(x)] : x \in {"a", "b", WORLD}}
           \cup {[k |-> "ovd", e |-> Acc("a"), b |-> Mon(3)], [k |-> "ovdu", e |-> Acc("b")]}
+          \cup (IF Scope = "quick" THEN {} ELSE {[k |-> "ovd", e |-> Acc(WORLD), b |-> Mon(3)]})     \* a bounded overdraft on world: still never asked for
           \cup (IF HasVar(ds, "x") THEN {[k |-> "acct", e |-> Var("x")]} ELSE {})
 Tiny == Scope = "tiny"
 SrcFam(ds) == LeafFam(ds) \cup {[k |-> "seq", s |-> <<x, y>>] : x \in (IF Tiny THEN {l \in LeafFam(ds) : l.k = "acct"} ELSE LeafFam(ds)), y \in LeafFam(ds)}
@@ -62,7 +65,8 @@ DstFam == IF Tiny THEN {[k |-> "acct", e |-> Acc("d")]} ELSE {[k |-> "acct", e |
 SentFam(ds) == (IF Tiny THEN {Mon(4)} ELSE {Mon(n) : n \in {1, 4}}) \cup (IF HasVar(ds, "m") THEN {Var("m")} ELSE {})
 SendFam(ds) == {[k |-> "send", all |-> FALSE, sent |-> sv, src |-> s, dst |-> d] : sv \in SentFam(ds), s \in SrcFam(ds), d \in DstFam}
           \cup {[k |-> "send", all |-> TRUE, sent |-> Ast, src |-> s, dst |-> d] : s \in SrcFam(ds), d \in DstFam}
-SaveFam == {[k |-> "save", all |-> FALSE, sent |-> Mon(2), e |-> Acc("a")], [k |-> "save", all |-> TRUE, sent |-> Ast, e |-> Acc("b")]}
+SaveFam == {[k |-> "save", all |-> FALSE, sent |-> Mon(2), e |-> Acc("a")], [k |-> "save", all |-> TRUE, sent |-> Ast, e |-> Acc("b")],
+            [k |-> "save", all |-> FALSE, sent |-> Mon(2), e |-> Acc(WORLD)]}
 StmtSeqs(ds) == {<<s>> : s \in SendFam(ds)}
            \cup (IF Big THEN {<<v, s>> : v \in SaveFam, s \in SendFam(ds)} \cup {<<s, t>> : s \in SendFam(ds), t \in {u \in SendFam(ds) : u.src.k # "seq"}}
                  ELSE IF Tiny THEN {<<v, s>> : v \in SaveFam, s \in {u \in SendFam(ds) : u.src.k \notin {"cap", "seq"}}}
